@@ -359,6 +359,11 @@ class Builder:
     def guard(self, cond, kind=None):
         if cond == ["bool", False]:
             return
+        if cond[0] == "op" and cond[1] == "||":
+            # reject if (A or B)  ==  reject if A; reject if B   (same error either way)
+            self.guard(cond[2], kind)
+            self.guard(cond[3], kind)
+            return
         self.steps.append(["guard", cond, kind])
 
     def fail(self, kind=None, severity="Error"):
@@ -436,6 +441,24 @@ class Builder:
         if not sb["steps"] and sb["ret"] and sb["ret"][0] == "err" and sb["ret"][2] == "Error":
             self.guard(canon(["not", c]), sb["ret"][1])
             return self._splice(sa, ca)
+        # `if c { Some(parse) } else { None }` is nom's cond(c, parse)
+        def is_none(s):
+            return not s["steps"] and s["ret"] == ["ok", NONE]
+        def some_of(s):
+            r = s["ret"]
+            if r and r[0] == "ok" and r[1][0] == "ctor" and r[1][1] == "core::option::Option::Some" and len(r[1][2]) == 1:
+                return {"steps": s["steps"], "ret": ["ok", r[1][2][0]]}
+            return None
+        if is_none(sb) and some_of(sa) is not None:
+            b = self.counter.fresh()
+            self.steps.append(["cond", b, c, some_of(sa)])
+            self._adv()
+            return V(b)
+        if is_none(sa) and some_of(sb) is not None:
+            b = self.counter.fresh()
+            self.steps.append(["cond", b, canon(["not", c]), some_of(sb)])
+            self._adv()
+            return V(b)
         b = self.counter.fresh()
         self.steps.append(["ite", b, c, sa, sb])
         self._adv()
@@ -508,7 +531,50 @@ class Builder:
 
 def build(fn):
     b = Builder()
-    return b.run(fn)
+    return renumber(b.run(fn))
+
+
+def renumber(seq):
+    """name binders b0, b1, ... in pre-order of the steps that define them (independent of the order in which
+    nested sequences happened to be built)"""
+    order = []
+
+    def visit(sq):
+        for st in sq["steps"]:
+            if len(st) > 1 and isinstance(st[1], str) and re.fullmatch(r"b\d+", st[1]) and st[0] != "tag":
+                order.append(st[1])
+            for x in st:
+                if isinstance(x, dict):
+                    visit(x)
+                elif isinstance(x, list):
+                    for y in x:
+                        if isinstance(y, dict):
+                            visit(y)
+                        elif isinstance(y, list) and len(y) == 2 and isinstance(y[1], dict):
+                            visit(y[1])
+    visit(seq)
+    m = {}
+    for o in order:
+        m.setdefault(o, "b%d" % len(m))
+
+    def ren(x):
+        if isinstance(x, dict):
+            return {"steps": [ren(s) for s in x["steps"]], "ret": ren(x["ret"])}
+        if isinstance(x, list):
+            return [ren(y) for y in x]
+        if isinstance(x, str) and x in m:
+            return "\x00" + m[x]
+        return x
+
+    def unmark(x):
+        if isinstance(x, dict):
+            return {"steps": [unmark(s) for s in x["steps"]], "ret": unmark(x["ret"])}
+        if isinstance(x, list):
+            return [unmark(y) for y in x]
+        if isinstance(x, str) and x.startswith("\x00"):
+            return x[1:]
+        return x
+    return unmark(ren(seq))
 
 
 # ------------------------------------------------------------------------------- effects
@@ -1518,8 +1584,12 @@ class Ev:
                 is_local = f.get("resolved_local") if f.get("resolved") else f.get("local")
                 if is_local:
                     return self.pure_call(target, vals, e)
-                if target in ("core::convert::From::from", "core::convert::Into::into") or target.endswith("::from") and len(vals) == 1:
-                    return ["call", target, vals]
+                # lossless integer widening (u16 -> usize etc.) is the identity on the value
+                if len(vals) == 1 and re.fullmatch(r"core::convert::num::<impl core::convert::From<u(8|16|32)> for (u16|u32|u64|u128|usize)>::from", target):
+                    return vals[0]
+                if len(vals) == 1 and target == "<T as core::convert::Into<U>>::into" and e.get("ty") in WIDTH and strip(args[0]).get("ty") in WIDTH \
+                        and WIDTH[e["ty"]] >= WIDTH[strip(args[0])["ty"]] and not strip(args[0])["ty"].startswith("i"):
+                    return vals[0]
                 return ["call", target, vals]
             if f["k"] == "local" and isinstance(env.get(f["id"]), Closure):
                 clo = env[f["id"]]
